@@ -69,12 +69,14 @@ Fixpoint break_to (K : cfg) (l : N) : option cfg :=
 
 (** do-actions of the enclosing foreach blocks, outermost first, each with the configuration around its
     foreach statement (where a full buffer in it looks for its handler) *)
-Fixpoint each_of (K : cfg) : list (stmt * cfg) :=
+Fixpoint each_levels (K : cfg) : list (list (stmt * cfg)) :=
   match K with
   | [] => []
-  | FForeach e :: K' => each_of K' ++ map (fun st => (st, K')) e
-  | _ :: K' => each_of K'
+  | FForeach e :: K' => each_levels K' ++ [map (fun st => (st, K')) e]
+  | _ :: K' => each_levels K'
   end.
+(** ... those of the levels not performed yet ([done] outermost levels have been) *)
+Definition each_from (done : nat) (K : cfg) : list (stmt * cfg) := concat (skipn done (each_levels K)).
 
 (** a block made of actions only: plain actions, expression appends, and - under an if - finish and break (the
     whole if is then one conditional action) *)
@@ -151,11 +153,11 @@ Definition choice (n d : rtree) : rtree := if drop_ok d then RChoice n d else n.
     At every pending action the reading also allows
     - the rest of the pending actions not to run, provided the symbol then is an error at once ([alt K]: the step
       from K with the pending actions passed over);
-    - the do-actions of the foreach blocks in which the symbol is going to be consumed to run at this point
-      rather than after the pending actions ([alt2 K]; the documentation does not order the two, both belong
-      to this symbol). *)
-Definition choice2 (n : rtree) (e : option rtree) : rtree := match e with Some x => RChoice n x | None => n end.
-Fixpoint look (t : rtree) (k : cfg -> rtree) (alt : cfg -> rtree) (alt2 : cfg -> option rtree) : rtree :=
+    - the do-actions of (some of the outer) foreach blocks in which the symbol is going to be consumed to run at
+      this point rather than after the pending actions, outer blocks before inner ones ([alt2 K]; the
+      documentation does not order do-actions and deferred actions of the same symbol). *)
+Definition choice2 (n : rtree) (e : list rtree) : rtree := fold_left RChoice e n.
+Fixpoint look (t : rtree) (k : cfg -> rtree) (alt : cfg -> rtree) (alt2 : cfg -> list rtree) : rtree :=
   match t with
   | RLeaf K => k K
   | RSRet _ r K => RRet None r K false
@@ -218,9 +220,9 @@ Fixpoint emit (fuel : nat) (ss : list (stmt * cfg)) (ovf : cfg -> rtree) (k : rt
   end end.
 
 (** symbol consumed in context Kctx by a match with per-byte append [app]; the parser continues in Kafter *)
-Definition consumed (noeach : bool) (f : nat) (rec : cfg -> rtree) (Kafter Kctx : cfg) (app : option (tid * pid)) : rtree :=
+Definition consumed (done : nat) (f : nat) (rec : cfg -> rtree) (Kafter Kctx : cfg) (app : option (tid * pid)) : rtree :=
   let after := fin (settle false f Kafter) in
-  emit f (if noeach then [] else each_of Kctx) rec
+  emit f (each_from done Kctx) rec
     match app with
     | None => after
     | Some (t, p) => RTest None t (raise Kctx OutOfSpace rec) (RAct None p after)   (* full: the handler gets this very symbol *)
@@ -266,20 +268,21 @@ Fixpoint next_ctx (fuel : nat) (K : cfg) (s : sym) : option cfg :=
   | _ => None
   end end.
 
-(** [feed skip noeach fuel K s]: offer symbol s to configuration K.  [skip]: the data actions passed before the
-    symbol is consumed or an error strikes are not performed; [noeach]: the foreach do-actions of the consumed
-    symbol have been performed already. *)
-Fixpoint feed (skip noeach : bool) (fuel : nat) (K : cfg) (s : sym) : rtree :=
+(** [feed skip done fuel K s]: offer symbol s to configuration K.  [skip]: the data actions passed before the
+    symbol is consumed or an error strikes are not performed; [done]: the do-actions of that many (outermost)
+    foreach blocks have been performed for this symbol already. *)
+Fixpoint feed (skip : bool) (noeach : nat) (fuel : nat) (K : cfg) (s : sym) : rtree :=
   match fuel with O => RFuel | S f =>
   (fun body => look (settle skip f K) body
                     (if skip then (fun _ => RFuel) else (fun K0 => feed true noeach f K0 s))
-                    (if skip || noeach then (fun _ => None) else
+                    (if skip then (fun _ => []) else
                      (fun K0 => match next_ctx f K0 s with
-                                | Some Kctx => match each_of Kctx with
-                                               | [] => None
-                                               | E => Some (emit f E (fun K2 => feed false true f K2 s) (feed false true f K0 s))
-                                               end
-                                | None => None
+                                | Some Kctx =>
+                                    let lv := each_levels Kctx in
+                                    map (fun j => emit f (concat (firstn (j - noeach) (skipn noeach lv)))
+                                                       (fun K2 => feed false j f K2 s) (feed false j f K0 s))
+                                        (seq (S noeach) (length lv - noeach))
+                                | None => []
                                 end))) (fun K1 =>
   let again := fun K2 => feed skip noeach f K2 s in
   let handler := fun K2 => feed false noeach f K2 s in
@@ -354,7 +357,7 @@ Definition ref_fuel : nat := 400.
 
 (** what the reading allows when symbol s arrives in configuration K: the pending actions run first, then the
     symbol is dealt with; the alternatives the reading leaves open are choices inside the tree (see [look]) *)
-Definition options (K : cfg) (s : sym) : list rtree := [feed false false ref_fuel K s].
+Definition options (K : cfg) (s : sym) : list rtree := [feed false 0 ref_fuel K s].
 
 (** start(): everything in front of the first symbol may run now or be left for the first symbol *)
 Definition start_tree (p : list stmt) : rtree := fin (settle false ref_fuel [FSeq p]).
